@@ -182,6 +182,16 @@ class Ctx:
             for k, v in kwargs.items():
                 if isinstance(v, np.ndarray) and isinstance(result, np.ndarray) and np.shares_memory(v, result):
                     return {'status': 'violated', 'clause': 'fresh:result', 'observed': 'result shares memory with argument %s' % k}
+            if isinstance(result, np.ndarray) and result.size > 0:
+                # a fresh result is also not the object an identical earlier / later call hands out (memoised or cached arrays)
+                st = np.random.get_state()
+                try:
+                    again = fn(**{k: copy.deepcopy(v) for k, v in old.items() if k in kwargs})
+                except Exception:      # noqa: BLE001
+                    again = None
+                np.random.set_state(st)
+                if isinstance(again, np.ndarray) and np.shares_memory(again, result):
+                    return {'status': 'violated', 'clause': 'fresh:result', 'observed': 'two identical calls return arrays sharing memory'}
         return {'status': 'ok', 'outcome': 'return'}
 
 
@@ -213,6 +223,16 @@ def _same(a, b):
         return bool(a == b)
     except Exception:
         return a is b
+
+
+def _same_shapes(a, b):
+    has = False
+    for n in b:
+        if isinstance(b[n], np.ndarray):
+            if not (isinstance(a.get(n), np.ndarray) and a[n].shape == b[n].shape and a[n].dtype == b[n].dtype and a[n].flags.writeable):
+                return False
+            has = True
+    return has
 
 
 def _short(x):
@@ -395,6 +415,7 @@ def search(ctx, q, seed=0, budget=300, max_calls=20000, stop_on_first=True):
         else:
             for _ in range(max_calls):
                 yield tuple(rng.choice(d) for d in doms)
+    prev = None          # the argument objects of the last admissible call (history probe below)
     for combo in combos():
         kwargs = {n: copy.deepcopy(v) for n, v in zip(names, combo)}
         ghost = {g[0]: v for g, v in zip(gnames, combo[len(names):])}
@@ -402,6 +423,24 @@ def search(ctx, q, seed=0, budget=300, max_calls=20000, stop_on_first=True):
         if r['status'] == 'pre-false':
             continue
         calls += 1
+        if r['status'] == 'ok' and prev is not None and calls % 2 == 0 and _same_shapes(prev[0], kwargs):
+            # history probe: the SAME argument objects as in the previous call, overwritten in place with the current values;
+            # the contract must hold again (results may depend on the current contents only, never on object identity / earlier calls)
+            reused = {}
+            for n in kwargs:
+                if isinstance(kwargs[n], np.ndarray):
+                    np.copyto(prev[0][n], kwargs[n])
+                    reused[n] = prev[0][n]
+                else:
+                    reused[n] = copy.deepcopy(kwargs[n])
+            r2 = ctx.check_call(q, reused, c, ghost)
+            if r2['status'] == 'violated' and witness is None:
+                witness = {'function': q, 'inputs': {n: _jsonable(v) for n, v in zip(names, combo)}, 'ghost': {g[0]: _jsonable(v) for g, v in zip(gnames, combo[len(names):])},
+                           'history_inplace': prev[1], 'clause': r2['clause'], 'observed': r2['observed'] + ' (after an earlier call on the same array objects holding other contents)'}
+                if stop_on_first:
+                    break
+        if r['status'] == 'ok':
+            prev = (kwargs, {n: _jsonable(v) for n, v in zip(names, combo)})
         key = repr([(n, _jsonable(v)) for n, v in zip(names, combo)])
         if key not in seen:
             seen.add(key)
@@ -474,6 +513,13 @@ def replay(ctx, wit):
         for k in gn:
             ghost.setdefault(k, 3)
     kwargs = {k: v for k, v in kwargs.items() if k not in gn}
+    if wit.get('history_inplace'):
+        first = {k: _unjson(v) for k, v in wit['history_inplace'].items() if k not in gn}
+        ctx.check_call(wit['function'], first, ghost=ghost)
+        for k in kwargs:
+            if isinstance(kwargs[k], np.ndarray):
+                np.copyto(first[k], kwargs[k])
+                kwargs[k] = first[k]
     return ctx.check_call(wit['function'], kwargs, ghost=ghost)
 
 
